@@ -7,7 +7,7 @@ import pyprops, pybuild
 WORKLOADS = [
     # script, parts, required classes
     ("c19_index.py", 8, ["int_index_out_of_range", "int_index_negative", "slice_negative_step", "slice_empty", "setitem_vector_wrong_length",
-                         "mask_mixed", "mask_wrong_length", "readonly_write_attempt", "readonly_elem_mutation"]),
+                         "mask_mixed", "mask_wrong_length", "readonly_write_attempt", "readonly_elem_mutation", "conversion_pairs"]),
     ("c19_seq.py", 8, ["maskedref_created", "alias_created", "made_readonly", "write_on_readonly", "elemref_write_through", "released",
                        "inplace_masked", "inplace_on_readonly_masked", "inplace_on_readonly_direct", "length_mismatch"]),
     ("c19_nd.py", 8, ["2d_index_out_of_range", "2d_wrong_shape_source", "2d_malformed_index", "2d_malformed_index_array_source", "2d_mask",
@@ -24,7 +24,7 @@ def setup():
 def run_property(pid, tier, seed, result):
     cfgs = ["asan"] if tier == "quick" else ["asan", "ref"]
     if os.environ.get("VERIF_CONFIGS"):
-        cfgs = [c for c in cfgs if c in os.environ["VERIF_CONFIGS"].split(",")] or cfgs[:1]
+        cfgs = [c for c in os.environ["VERIF_CONFIGS"].split(",") if c in ("asan", "ref", "tsan")] or cfgs[:1]   # development override
     for cfg in cfgs:
         for script, parts, req in WORKLOADS:
             t = tier
